@@ -87,6 +87,44 @@ Lemma chg_complete mx s w k r :
   chg mx s w k (Complete r) = s_run (upd_w s w (w_st k (Complete r))) (sat_sub (c_run s) 1).
 Proof. reflexivity. Qed.
 
+(** * Fuel: the model's own budget covers every run *)
+Lemma map_nth_seq {A} (d : A) l : map (fun t => nth t l d) (seq 0 (length l)) = l.
+Proof.
+  induction l as [|a l IH]; [reflexivity|]. cbn [length seq map nth]. f_equal.
+  rewrite <- seq_shift, map_map. exact IH.
+Qed.
+
+Lemma qcost_all tb : qcost tb (seq 0 (length tb)) = fold_right Nat.add O (map (fun b => S (S (length b))) tb).
+Proof.
+  unfold qcost, bcost, list_sum. f_equal.
+  rewrite <- (map_nth_seq [] tb) at 2. rewrite map_map. reflexivity.
+Qed.
+
+Lemma sum_sub (f : nat -> nat) l m : NoDup l -> incl l m -> (list_sum (map f l) <= list_sum (map f m))%nat.
+Proof.
+  revert m. induction l as [|a l IH]; intros m Hnd Hin; [cbn; lia|].
+  inversion Hnd as [|? ? Hna Hnd']. subst.
+  assert (In a m) as Ha by (apply Hin; left; reflexivity).
+  destruct (in_split _ _ Ha) as (m1 & m2 & ->).
+  assert (incl l (m1 ++ m2)) as Hin'.
+  { intros x Hx. assert (In x (m1 ++ a :: m2)) as Hx' by (apply Hin; right; exact Hx).
+    apply in_app_iff in Hx'. apply in_app_iff. destruct Hx' as [Hx'|[->|Hx']]; [left; exact Hx' | contradiction | right; exact Hx']. }
+  specialize (IH (m1 ++ m2) Hnd' Hin').
+  rewrite !map_app in *. cbn [map]. unfold list_sum in *. rewrite !fold_right_app in *. cbn [fold_right].
+  assert (forall (x : list nat) acc, fold_right Nat.add acc x = (fold_right Nat.add 0 x + acc)%nat) as Hfa.
+  { induction x as [|y x IHx]; intros acc0; cbn [fold_right]; [lia | rewrite IHx; lia]. }
+  rewrite (Hfa (map f m1)) in *. cbn [map fold_right]. lia.
+Qed.
+
+Lemma qcost_le_wfuel mx s Q :
+  NoDup Q -> (forall t, In t Q -> t < length (c_tb s))%nat -> (qcost (c_tb s) Q + 2 <= wfuel (mkx mx s))%nat.
+Proof.
+  intros Hnd Hlt. unfold wfuel. change (pw_tbody (mkx mx s)) with (c_tb s). rewrite <- qcost_all.
+  assert (qcost (c_tb s) Q <= qcost (c_tb s) (seq 0 (length (c_tb s))))%nat.
+  { apply sum_sub; [exact Hnd|]. intros t Ht. apply in_seq. specialize (Hlt t Ht). lia. }
+  lia.
+Qed.
+
 Section Run.
   Variable mx : Z.
   Variable specs : list tspec.
@@ -393,5 +431,199 @@ Section Run.
     - (* tasks are queued but the queue is empty: impossible *)
       exfalso. pose proof (i_tqi _ _ _ _ _ _ _ _ _ H) as Hp. rewrite Hemp in Hp. apply Permutation_nil in Hp.
       destruct Q; [discriminate HQn | discriminate Hp].
+  Qed.
+
+  (** a worker woken from its hooked wait finishes the sleeper, then goes on as a free worker *)
+  Lemma run_woken s tr Q R acc k t n T lg fuel :
+    INV mx specs s d tr (Some w) (Some t) Q R ->
+    nth_error (c_ws s) w = Some k -> k_st k = Syscall 0 n STimeout -> hold k t n lg ->
+    spec_sleeper specs t n T lg -> status tr t = Asleep T ->
+    (qcost (c_tb s) Q + length lg + 3 < fuel)%nat ->
+    exists s' e out, wloop fuel (mkx mx s) w acc = (mkx mx s', acc ++ e, out) /\
+                     run_post s Q R 2 s' (fold_left pev15 e tr) out.
+  Proof.
+    intros H Hk Hst [Hkt Hdd Hkp] Hsp Hasl Hfuel.
+    assert (t < length specs)%nat as Htl by (apply nth_error_Some; unfold spec_sleeper in Hsp; congruence).
+    destruct fuel as [|f]; [lia|]. destruct f as [|f]; [lia|].
+    cbn [sleep_tail app] in Hkt.
+    (* back to Executing *)
+    rewrite (wl_syscall mx s w k Hk (S f) acc t 0 n SExecuting _ (Syscall 0 n SExecuting) Hkt)
+      by (rewrite Hst; cbn [tr_syscall]; rewrite Z.eqb_refl; reflexivity).
+    destruct (step_chg s tr t Q R k (IRunning :: map ILog lg) (Syscall 0 n SExecuting) H Hk) as (R2 & H2 & Hk2 & Hmm2 & Hfr2 & Hact2 & _);
+      [rewrite Hkt; reflexivity | exact Htl | congruence | congruence | exact I |].
+    set (s2 := chg mx (upd_w s w (w_task k (Some (t, IRunning :: map ILog lg)))) w (w_task k (Some (t, IRunning :: map ILog lg)))
+                   (Syscall 0 n SExecuting)) in *.
+    set (tr2 := trk_chg tr w (Syscall 0 n SExecuting) t) in *.
+    set (k2 := w_st (w_task k (Some (t, IRunning :: map ILog lg))) (Syscall 0 n SExecuting)) in *.
+    (* leave the syscall *)
+    assert (k_task k2 = Some (t, IRunning :: map ILog lg)) as Hkt2 by reflexivity.
+    destruct Hfr2 as [Hcl2 Htb2].
+    rewrite (wl_running mx s2 w k2 Hk2 f _ t _ Running Hkt2) by reflexivity.
+    destruct (step_chg s2 tr2 t Q R2 k2 (map ILog lg) Running H2 Hk2) as (R3 & H3 & Hk3 & Hmm3 & Hfr3 & Hact3 & _);
+      [reflexivity | exact Htl | congruence | congruence | exact I |].
+    set (s3 := chg mx (upd_w s2 w (w_task k2 (Some (t, map ILog lg)))) w (w_task k2 (Some (t, map ILog lg))) Running) in *.
+    set (tr3 := trk_chg tr2 w Running t) in *.
+    set (k3 := w_st (w_task k2 (Some (t, map ILog lg))) Running) in *.
+    destruct Hfr3 as [Hcl3 Htb3].
+    (* the rest of the task, its return, further tasks *)
+    assert (k_task k3 = Some (t, map ILog lg ++ [])) as Hkt3 by (cbn [k3 k2 w_st w_task k_task]; rewrite app_nil_r; reflexivity).
+    replace f with (length lg + S (f - length lg - 1))%nat by lia.
+    set (acc3 := (acc ++ [EL 0 w (CbChanged (Syscall 0 n SExecuting)) (k_st k)] ++ [EB t (BRes true)]) ++
+                 [EL 0 w (CbChanged Running) (k_st k2)] ++ [EB t (BRes true)]).
+    destruct (run_logs Q R3 t [] lg s3 tr3 k3 acc3 (S (f - length lg - 1)) H3 Hk3 Hkt3 Hact3 Htl)
+      as (s4 & e4 & Heq4 & H4 & Hk4 & Hact4 & Hmm4 & Hfr4).
+    rewrite Heq4.
+    destruct (run_ret Q R3 t s4 (fold_left pev15 e4 tr3) (w_task k3 (Some (t, []))) (acc3 ++ e4) (f - length lg - 1) H4 Hk4)
+      as (s5 & Heq5 & H5 & Hk5 & Hmm5 & Hfr5); [reflexivity | exact Hkp | exact Hact4 | exact Htl |].
+    rewrite Heq5.
+    destruct (run_fresh (length Q) Q eq_refl s5 (set_status (fold_left pev15 e4 tr3) t Finished) R3 ((acc3 ++ e4) ++ [EB t (BRet 0)])
+                (w_task (w_task k3 (Some (t, []))) None) (f - length lg - 1)%nat H5 Hk5) as (s' & e & out & Heq & Hpost).
+    - repeat split. exact Hdd.
+    - destruct Hfr4 as [_ Hb4]. destruct Hfr5 as [_ Hb5]. rewrite Hb5, Hb4, Htb3, Htb2. lia.
+    - exists s', (([EL 0 w (CbChanged (Syscall 0 n SExecuting)) (k_st k)] ++ [EB t (BRes true)]) ++
+                  ([EL 0 w (CbChanged Running) (k_st k2)] ++ [EB t (BRes true)]) ++ e4 ++ [EB t (BRet 0)] ++ e), out.
+      split; [rewrite Heq; unfold acc3; rewrite <- !app_assoc; reflexivity|].
+      rewrite !fold_left_app.
+      eapply run_post_weaken; [| |exact Hpost].
+      + eapply frame_trans; [split; [exact Hcl2 | exact Htb2]|]. eapply frame_trans; [split; [exact Hcl3 | exact Htb3]|].
+        eapply frame_trans; eassumption.
+      + lia.
+  Qed.
+
+  (** * Resuming a worker taken from the ready queue *)
+  Lemma exit_inv s tr Q R k :
+    INV mx specs s d tr (Some w) None Q R -> nth_error (c_ws s) w = Some k -> fresh k ->
+    let s3 := chg mx (upd_w s w (w_dead k)) w (w_dead k) (Complete (-1)) in
+    INV mx specs s3 d (pev15 tr (EL 0 w (CbChanged (Complete (-1))) Running)) None None Q R /\ mm s3 Q R = mm s Q R /\ frame s s3.
+  Proof.
+    intros H Hk (Hst & Hnt & Hdd) s3.
+    assert (w < length (c_ws s))%nat as Hwlt by (apply nth_error_Some; congruence).
+    destruct (nodup_cur _ _ _ (i_nd _ _ _ _ _ _ _ _ _ H)) as [HnR HnP].
+    unfold s3. rewrite chg_complete, upd_w_twice.
+    set (kd := w_st (w_dead k) (Complete (-1))).
+    change (c_run (upd_w s w (w_dead k))) with (c_run (upd_w s w kd)).
+    assert (INV mx specs (upd_w s w kd) d (pev15 tr (EL 0 w (CbChanged (Complete (-1))) Running)) (Some w) None Q R) as H1.
+    { apply (inv_upd_cur mx specs s d tr _ w None Q R k kd H Hk).
+      - intros t. cbn [kd w_st w_dead k_task]. rewrite Hnt. tauto.
+      - intros t T n lg _ [Hx _ _]. congruence.
+      - reflexivity.
+      - reflexivity.
+      - intro w'. cbn [pev15 k_workers]. rewrite nth_set_nth_ext. reflexivity.
+      - cbn [pev15 k_workers]. rewrite len_set_nth_ext. pose proof (i_trklen _ _ _ _ _ _ _ _ _ H). lia. }
+    split; [|split; [|split; reflexivity]].
+    - apply (inv_drop_cur mx specs (upd_w s w kd) d _ w Q R kd (-1) H1).
+      + apply nth_error_upd_w, Hwlt.
+      + reflexivity.
+      + cbn [kd w_st w_dead k_task]. exact Hnt.
+    - unfold mm. f_equal. change (nwk (upd_w s w kd) R = nwk s R). apply nwk_upd_cur, HnR.
+  Qed.
+
+  Definition resume_post (s0 : cst) (Q0 R0 : list nat) (slack : nat) (s3 : cst) (tr' : trk) (r : res) (d' : sdata) : Prop :=
+    frame s0 s3 /\
+    ((exists rr R', r = ROk (Complete rr) /\ d' = d /\ INV mx specs s3 d tr' None None [] R' /\ (mm s3 [] R' <= mm s0 Q0 R0 + slack)%nat) \/
+     (exists n T Q' R', r = ROk (Syscall 0 n (SSuspend T)) /\ d' = d_park d T w /\ INV mx specs s3 d' tr' None None Q' R' /\
+                        GG mx s3 Q' R' /\ (mm s3 Q' R' + 3 <= mm s0 Q0 R0 + slack)%nat)).
+
+  (** from the end of the run to the end of [resume] *)
+  Lemma resume_finish s k c0 s0 Q0 R0 slack s' e out :
+    nth w (c_wp s) O = O -> nth_error (c_ws s) w = Some k ->
+    match k_st k with Complete _ | Error _ => False | _ => True end ->
+    tr_running (c_clock s) (k_st k) = Some c0 -> k_dead k = false ->
+    wloop (wfuel (mkx mx (fst (pre_resume mx s w k c0)))) (mkx mx (fst (pre_resume mx s w k c0))) w (snd (pre_resume mx s w k c0))
+      = (mkx mx s', snd (pre_resume mx s w k c0) ++ e, out) ->
+    forall tr1, run_post s0 Q0 R0 slack s' (fold_left pev15 e tr1) out ->
+    exists s3 e3 r d', k_resume (mkx mx s) w = (mkx mx s3, r, snd (pre_resume mx s w k c0) ++ e3) /\
+                       resume_post s0 Q0 R0 slack s3 (fold_left pev15 e3 tr1) r d'.
+  Proof.
+    intros Hwp Hk Hstk Htr Hdd Hwl tr1 [Hfr Hpost].
+    destruct Hpost as [(-> & R' & k' & HI & Hk' & Hfresh & Hmm)|(-> & Q' & R' & t & n & T & lg & k' & Hts & HI & Hk' & Hst' & Hh & Hsp & Hasl & HG & Hmm)].
+    - (* the worker coroutine completes *)
+      rewrite (k_resume_return mx s w k c0 Hwp Hk Hstk Htr Hdd s' _ k' Hk' Hwl (proj1 Hfresh)).
+      destruct (exit_inv s' (fold_left pev15 e tr1) [] R' k' HI Hk' Hfresh) as (H3 & Hmm3 & Hfr3).
+      eexists _, (e ++ [EL 0 w (CbChanged (Complete (-1))) Running]), _, d. split; [rewrite app_assoc; reflexivity|].
+      split; [eapply frame_trans; eassumption|]. left. exists (-1), R'. split; [reflexivity|]. split; [reflexivity|].
+      rewrite fold_left_app. split; [exact H3 | lia].
+    - (* the worker is parked in its hooked wait *)
+      rewrite (k_resume_yield mx s w k c0 Hwp Hk Hstk Htr Hdd s' _ k' Hk' 0 n (SSuspend T) Hwl Hst').
+      rewrite Hts. cbn [tl].
+      assert (nth_error (c_ws (s_ts s' [])) w = Some k') as Hk'' by exact Hk'.
+      pose proof (inv_park mx specs (s_ts s' []) d _ w t Q' R' k' n T lg HI Hk'' Hst' Hh Hsp Hasl) as H3.
+      eexists _, e, _, (d_park d T w). split; [reflexivity|].
+      split; [eapply frame_trans; [exact Hfr | split; reflexivity]|]. right. exists n, T, Q', R'.
+      split; [reflexivity|]. split; [reflexivity|]. split; [exact H3|]. split; [exact HG | exact Hmm].
+  Qed.
+
+  (** a ready worker: Ready -> Running, then a free run *)
+  Lemma resume_ready s tr Q R k :
+    INV mx specs s d tr (Some w) None Q R ->
+    nth_error (c_ws s) w = Some k -> k_st k = Ready -> k_task k = None -> k_dead k = false ->
+    exists s3 e r d', k_resume (mkx mx s) w = (mkx mx s3, r, e) /\ resume_post s Q R 0 s3 (fold_left pev15 e tr) r d'.
+  Proof.
+    intros H Hk Hst Hnt Hdd.
+    assert (w < length (c_ws s))%nat as Hwlt by (apply nth_error_Some; congruence).
+    destruct (nodup_cur _ _ _ (i_nd _ _ _ _ _ _ _ _ _ H)) as [HnR HnP].
+    assert (tr_running (c_clock s) (k_st k) = Some (Some Running)) as Htr by (rewrite Hst; reflexivity).
+    set (k1 := w_st k Running).
+    set (s1 := upd_w s w k1).
+    set (tr1 := pev15 tr (EL 0 w (CbChanged Running) Ready)).
+    assert (pre_resume mx s w k (Some Running) = (s1, [EL 0 w (CbChanged Running) Ready])) as Hpre.
+    { unfold pre_resume. rewrite chg_running, Hst. reflexivity. }
+    assert (INV mx specs s1 d tr1 (Some w) None Q R) as H1.
+    { apply (inv_upd_cur mx specs s d tr tr1 w None Q R k k1 H Hk).
+      - intros t. cbn [k1 w_st k_task]. tauto.
+      - intros t T n lg _ [Hx _ _]. congruence.
+      - reflexivity.
+      - reflexivity.
+      - intro w'. cbn [tr1 pev15 k_workers]. rewrite nth_set_nth_ext. reflexivity.
+      - cbn [tr1 pev15 k_workers]. rewrite len_set_nth_ext. pose proof (i_trklen _ _ _ _ _ _ _ _ _ H). lia. }
+    assert (nth_error (c_ws s1) w = Some k1) as Hk1 by (apply nth_error_upd_w, Hwlt).
+    destruct (run_fresh (length Q) Q eq_refl s1 tr1 R [EL 0 w (CbChanged Running) Ready] k1 (wfuel (mkx mx s1)) H1 Hk1)
+      as (s' & e & out & Heq & Hpost).
+    - repeat split; assumption.
+    - pose proof (qcost_le_wfuel mx s1 Q (i_Qnd _ _ _ _ _ _ _ _ _ H1)) as Hq.
+      assert (forall t, In t Q -> (t < length (c_tb s1))%nat) as Hlt.
+      { intros t Ht. rewrite (i_tb _ _ _ _ _ _ _ _ _ H1), map_length. apply (i_Qst _ _ _ _ _ _ _ _ _ H1), Ht. }
+      specialize (Hq Hlt). lia.
+    - assert (run_post s Q R 0 s' (fold_left pev15 e tr1) out) as Hpost'.
+      { eapply run_post_weaken; [| |exact Hpost]; [split; reflexivity|].
+        unfold mm, s1. rewrite nwk_upd_cur by exact HnR. lia. }
+      assert (match k_st k with Complete _ | Error _ => False | _ => True end) as Hstk by (rewrite Hst; exact I).
+      assert (wloop (wfuel (mkx mx (fst (pre_resume mx s w k (Some Running))))) (mkx mx (fst (pre_resume mx s w k (Some Running)))) w
+                    (snd (pre_resume mx s w k (Some Running))) = (mkx mx s', snd (pre_resume mx s w k (Some Running)) ++ e, out)) as Hwl
+        by (rewrite Hpre; cbn [fst snd]; exact Heq).
+      destruct (resume_finish s k (Some Running) s Q R 0 s' e out (i_wp _ _ _ _ _ _ _ _ _ H w) Hk Hstk Htr Hdd Hwl tr1 Hpost')
+        as (s3 & e3 & r & d' & Hres & Hrp).
+      + rewrite Hpre in Hres. cbn [snd] in Hres. exists s3, ([EL 0 w (CbChanged Running) Ready] ++ e3), r, d'.
+        split; [exact Hres|]. rewrite fold_left_app. exact Hrp.
+  Qed.
+
+  (** a woken worker: still in its syscall state (Timeout), no state change on resumption *)
+  Lemma resume_woken s tr Q R k t n T lg :
+    INV mx specs s d tr (Some w) (Some t) Q R ->
+    nth_error (c_ws s) w = Some k -> k_st k = Syscall 0 n STimeout -> hold k t n lg ->
+    spec_sleeper specs t n T lg -> status tr t = Asleep T ->
+    exists s3 e r d', k_resume (mkx mx s) w = (mkx mx s3, r, e) /\ resume_post s Q R 2 s3 (fold_left pev15 e tr) r d'.
+  Proof.
+    intros H Hk Hst Hh Hsp Hasl.
+    assert (tr_running (c_clock s) (k_st k) = Some None) as Htr by (rewrite Hst; reflexivity).
+    assert (pre_resume mx s w k None = (s, [])) as Hpre by reflexivity.
+    assert (t < length specs)%nat as Htl by (apply nth_error_Some; unfold spec_sleeper in Hsp; congruence).
+    assert (~ In t Q) as HtQ.
+    { intro Hin. apply (i_Qst _ _ _ _ _ _ _ _ _ H) in Hin. destruct Hin. congruence. }
+    destruct (run_woken s tr Q R [] k t n T lg (wfuel (mkx mx s)) H Hk Hst Hh Hsp Hasl) as (s' & e & out & Heq & Hpost).
+    - pose proof (qcost_le_wfuel mx s (t :: Q)) as Hq.
+      assert (NoDup (t :: Q)) as Hnd by (constructor; [exact HtQ | apply (i_Qnd _ _ _ _ _ _ _ _ _ H)]).
+      assert (forall t0, In t0 (t :: Q) -> (t0 < length (c_tb s))%nat) as Hlt.
+      { intros t0 [<-|Ht0]; rewrite (i_tb _ _ _ _ _ _ _ _ _ H), map_length; [exact Htl | apply (i_Qst _ _ _ _ _ _ _ _ _ H), Ht0]. }
+      specialize (Hq Hnd Hlt). rewrite qcost_cons in Hq. unfold bcost in Hq.
+      rewrite (body_lookup s t _ (i_tb _ _ _ _ _ _ _ _ _ H) Hsp) in Hq. unfold body_of in Hq. cbn [ts_sleep ts_logs] in Hq.
+      rewrite app_length, map_length in Hq. cbn [sleep_block sleep_tail length] in Hq. lia.
+    - assert (match k_st k with Complete _ | Error _ => False | _ => True end) as Hstk by (rewrite Hst; exact I).
+      assert (wloop (wfuel (mkx mx (fst (pre_resume mx s w k None)))) (mkx mx (fst (pre_resume mx s w k None))) w
+                    (snd (pre_resume mx s w k None)) = (mkx mx s', snd (pre_resume mx s w k None) ++ e, out)) as Hwl
+        by (rewrite Hpre; cbn [fst snd]; exact Heq).
+      destruct (resume_finish s k None s Q R 2 s' e out (i_wp _ _ _ _ _ _ _ _ _ H w) Hk Hstk Htr (h_dead _ _ _ _ Hh) Hwl tr Hpost)
+        as (s3 & e3 & r & d' & Hres & Hrp).
+      + rewrite Hpre in Hres. cbn [snd app] in Hres. exists s3, e3, r, d'. split; [exact Hres | exact Hrp].
   Qed.
 End Run.
